@@ -564,6 +564,12 @@ func c04Check(r *vcore.Run) vcore.Coverage {
 		MaxDepth: 30, Deadline: 5 * time.Minute,
 	})
 	r.Notes["two_writer_values"] = map[string]any{"states": hst.States, "transitions": hst.Transitions, "fixpoint": hst.Fixpoint, "completed_depth": hst.Depth, "cap_hit": hst.CapHit}
+	// third part: two uploads alive at once after an earlier one was finished (sequentially: the client keeps
+	// process-wide state between writers, so the cases of one stack run in order)
+	pairs := c04PairCases(r.Thorough())
+	for _, pc := range pairs {
+		c04PairRun(r, pc)
+	}
 	r.Sample("script", scripts[len(scripts)/3])
 	r.Sample("script-bad-resume", func() c04Script {
 		for _, s := range scripts {
@@ -579,11 +585,19 @@ func c04Check(r *vcore.Run) vcore.Coverage {
 		"over HTTP a refused write surfaces at the flush (Write or Close), since the client buffers",
 		"in-process transport (see C03's binding run against a real loopback server)",
 	}
+	ops += int64(len(pairs))
 	return vcore.Coverage{States: int64(len(scripts)) + hst.States, Transitions: ops + hst.Transitions, TracesImpl: int64(len(scripts)) + hst.Transitions, Evaluations: int64(len(scripts)) + hst.Transitions, Nontrivial: nontrivial + hst.States, Exhaustive: hst.CapHit == "",
-		Rule: "every composition of an n-byte content (n <= 4 quick / 6 thorough) into Write calls x chunk-size hints x every subset of write boundaries closed-and-resumed x resume modes {explicit, -1, alternating} x one bad resume (offset +1, -1, 0) at each boundary x one transport failure before delivery at the k-th data request (k <= 3, first hop; the failed Write/Commit is retried) x right/wrong commit digest (wrong = of absent content, of a different blob present in the repository, of the present empty blob) x stacks {mem, client->server->mem with registry minimum 1,2,3,8192, two hops, ociunify, ociunify over HTTP}; plus write sizes around the real 8192 minimum; plus, on the in-memory registry, every history (to the fixpoint) of one session of <= 3 bytes held through two writer values at once (start, write, resume at size/-1/0/wrong offset into either value, commit right/wrong, cancel, use after finish), each step checked against the reference model with its per-writer start offset; states = scripts + history states, transitions = writer operations; non-trivial = more than one Write"}
+		Rule: "every composition of an n-byte content (n <= 4 quick / 6 thorough) into Write calls x chunk-size hints x every subset of write boundaries closed-and-resumed x resume modes {explicit, -1, alternating} x one bad resume (offset +1, -1, 0) at each boundary x one transport failure before delivery at the k-th data request (k <= 3, first hop; the failed Write/Commit is retried) x right/wrong commit digest (wrong = of absent content, of a different blob present in the repository, of the present empty blob) x stacks {mem, client->server->mem with registry minimum 1,2,3,8192, two hops, ociunify, ociunify over HTTP}; plus write sizes around the real 8192 minimum; plus, on the in-memory registry, every history (to the fixpoint) of one session of <= 3 bytes held through two writer values at once (start, write, resume at size/-1/0/wrong offset into either value, commit right/wrong, cancel, use after finish), each step checked against the reference model with its per-writer start offset; plus two uploads alive at once on one stack after an earlier upload was finished (commit+close, commit, cancel, close), their writes alternating, every pair of compositions of <= 3 bytes x hints {0,1,3} x stacks: each commits as exactly its own bytes; states = scripts + history states, transitions = writer operations; non-trivial = more than one Write"}
 }
 
 func c04Replay(r *vcore.Run, sub string, raw json.RawMessage) {
+	if sub == "pair" {
+		var c c04PairCase
+		if json.Unmarshal(raw, &c) == nil {
+			c04PairRun(r, c)
+		}
+		return
+	}
 	if sub == "handles" {
 		var c c02Case
 		if json.Unmarshal(raw, &c) != nil {
